@@ -594,6 +594,55 @@ func (c *Ctx) checkStoredValue(r *fnRef) {
 			L.Bad("stored-value", r.label, "row store", c.P.Pos(st.Pos()), "the value written into the row is not the replacement variable")
 		}
 	}
+	// majority mode: a value that reaches the row store and is computed from the column (neither a
+	// dispatch constant nor the single character given) is produced only where the mode string has
+	// been compared equal to "MAJ"
+	fn := r.F
+	var maj []ssa.Value
+	allInstrs(fn, func(in ssa.Instruction) {
+		if bo, ok := in.(*ssa.BinOp); ok && bo.Op == token.EQL {
+			for _, pr := range [][2]ssa.Value{{bo.X, bo.Y}, {bo.Y, bo.X}} {
+				if s, ok := cStr(constOf(pr[1])); ok && s == "MAJ" {
+					if _, isParam := pr[0].(*ssa.Parameter); isParam {
+						maj = append(maj, bo)
+					}
+				}
+			}
+		}
+	})
+	bf := computeBranchFacts(fn)
+	loops := naturalLoops(fn)
+	n, bad := 0, 0
+	for _, st := range rowStores(lc, fn) {
+		for v := range throughPhis(st.Val, false) {
+			cv, ok := v.(*ssa.Convert)
+			if !ok {
+				continue
+			}
+			// computed inside a loop from a loop index or an element: the per-column majority
+			if innermostLoopOf(loops, cv.Block()) == nil {
+				continue
+			}
+			if _, isParamDerived := stripConv(cv.X).(*ssa.Parameter); isParamDerived {
+				continue
+			}
+			n++
+			okMaj := false
+			for _, m := range maj {
+				if bf.knownAt(cv.Block(), m, true) {
+					okMaj = true
+				}
+			}
+			if !okMaj {
+				bad++
+			}
+		}
+	}
+	if n > 0 {
+		L.Check(bad == 0, "stored-value", r.label, "majority character only in MAJ mode", c.P.Pos(fn.Pos()),
+			fmt.Sprintf("%d computed replacement value(s), each under mode == \"MAJ\"", n),
+			"a replacement character computed from the column can be written although the mode string was not compared equal to \"MAJ\" on that path: another mode (e.g. a given character that happens to be the placeholder) is treated as majority mode")
+	}
 }
 
 // checkColumnTables: every local table whose elements are updated inside the
